@@ -1223,7 +1223,7 @@ def load(odffile):
             except (KeyError, UnicodeDecodeError):
                 pass
     for mentry,mvalue in manifest.items():
-        if mentry[:9] == u"Pictures/" and len(mentry) > 9:
+        if mentry[:9] == u"Pictures/" and len(mentry) > 9 and mentry[-1] != u"/":
             doc.addPicture(mvalue['full-path'], mvalue['media-type'], z.read(mentry))
         elif mentry == u"Thumbnails/thumbnail.png":
             doc.addThumbnail(z.read(mentry))
